@@ -87,6 +87,18 @@ func checkMemoDiscipline(p *Program, r *Report, rule string) {
 				return true
 			}
 		}
+		// … or a helper that iterates over the field was called before
+		for _, b := range f.Blocks {
+			for _, in := range b.Instrs {
+				c, ok := in.(*ssa.Call)
+				if !ok || !(b.Dominates(at.Block()) && before(c, at)) {
+					continue
+				}
+				if g := staticCallee(c.Common()); g != nil && g.Pkg == f.Pkg && g != f && len(rangesOverField(g, field)) > 0 {
+					return true
+				}
+			}
+		}
 		return false
 	}
 	for _, f := range p.SrcFuncs() {
